@@ -56,19 +56,29 @@ def gen_irblocks(repo, res):
     res.functions.add(f.key)
     loc = m.line(f.node)
 
-    def world(part, rank2=True, perm_axis=2):
+    def world(part, rank2=True, perm_axis=2, rt=False):
         # expression nodes
         def ex(name, terminal=True):
             return Node("UflExpr", name=name, is_mt=terminal, ufl_shape=())
-        names = ["v+", "v-", "u+", "u-", "f"]
+        if rt:
+            # two components of one vector-valued (RT-like) element: different tables over the SAME dofs
+            names = ["v0", "v1", "u0", "u1", "f"]
+            restr = {n: None for n in names}
+            comp = {"v0": 0, "v1": 1, "u0": 0, "u1": 1, "f": 0}
+            tabs = {n: _table(f"FE_{n}", (1, 1, 3, 3), 0) for n in names[:4]}
+            tabs["f"] = _table("FE_f", (1, 1, 3, 4), 0)
+        else:
+            names = ["v+", "v-", "u+", "u-", "f"]
+            restr = {"v+": "+", "v-": "-", "u+": "+", "u-": "-", "f": "+"}
+            comp = {n: 0 for n in names}
+            tabs = {
+                "v+": _table("FE_v", (perm_axis, 2, 3, 3), 0), "v-": _table("FE_v", (perm_axis, 2, 3, 3), 3),
+                "u+": _table("FE_u", (1, 2, 3, 2), 1, bs=2), "u-": _table("FE_u", (1, 2, 3, 2), 5, bs=2),
+                "f": _table("FE_f", (1, 2, 3, 4), 0),
+            }
         exprs = {n: ex(n) for n in names}
-        restr = {"v+": "+", "v-": "-", "u+": "+", "u-": "-", "f": "+"}
-        mts = {n: Node("ModifiedTerminal", name=n, restriction=restr[n]) for n in names}
-        tabs = {
-            "v+": _table("FE_v", (perm_axis, 2, 3, 3), 0), "v-": _table("FE_v", (perm_axis, 2, 3, 3), 3),
-            "u+": _table("FE_u", (1, 2, 3, 2), 1, bs=2), "u-": _table("FE_u", (1, 2, 3, 2), 5, bs=2),
-            "f": _table("FE_f", (1, 2, 3, 4), 0),
-        }
+        mts = {n: Node("ModifiedTerminal", name=n, restriction=restr[n], flat_component=comp[n], component=(comp[n],), global_derivatives=(), local_derivatives=(),
+                       reference_value=True, averaged=None, base_form_op=None, terminal=Node("FormArgument", name=n)) for n in names}
         one = _table("FE_one", (1, 1, 1, 1), 0, ttype="ones")
         nodes = {}
         for i, n in enumerate(names):
@@ -111,13 +121,13 @@ def gen_irblocks(repo, res):
         expression = Node("UflExpr", name="integrand", is_mt=False, ufl_shape=())
         rule_ = Node("QuadratureRule", id=_PyCall(lambda: "r0"))
         cell = Node("Cell", cellname="triangle", topological_dimension=2)
-        args = [expression, {}, rule_, cell, "interior_facet", "facet", (6, 8) if rank2 else (6,), False, p]
+        args = [expression, {}, rule_, cell, "cell" if rt else "interior_facet", "cell" if rt else "facet", ((3, 3) if rt else (6, 8)) if rank2 else (6,), False, p]
         return it, args, F, mts, tabs, names, status
 
-    def run(label, part, rank2=True, perm_axis=2):
+    def run(label, part, rank2=True, perm_axis=2, rt=False):
         key = f"{f.key}:{label}"
         res.ob(key)
-        it, args, F, mts, tabs, names, status = world(part, rank2, perm_axis)
+        it, args, F, mts, tabs, names, status = world(part, rank2, perm_axis, rt)
         try:
             out = it.call_f(f, args)
         except Raised as e:
@@ -189,7 +199,7 @@ def gen_irblocks(repo, res):
                         break
         if isinstance(argkeys, list) and len(set(argkeys)) != len(argkeys):
             fail(f"argkeys = {argkeys} lists a node twice")
-        want_active = {"FE_v", "FE_u"}   # f is inactive and in no block; the ones table is dropped
+        want_active = {tabs[n].f["name"] for n in names[:4]}   # f is inactive and in no block; the ones table is dropped
         if set(dict(active_tables)) != want_active or set(dict(active_types)) != want_active:
             fail(f"active tables are {sorted(dict(active_tables))} (types for {sorted(dict(active_types))}), expected {sorted(want_active)}: tables of inactive nodes and "
                  "zeros/ones tables are not emitted, every table a block or an active node refers to is")
@@ -203,6 +213,10 @@ def gen_irblocks(repo, res):
     run("bilinear form without permuted tables", "full", perm_axis=1)
     run("linear interior-facet form", "full", rank2=False)
     run("linear form with part=diagonal", "diagonal", rank2=False)
+    # whether a block has diagonal entries is decided by its dofs: two components of a vector-valued element (RT, N1curl, BDM) live on the
+    # same dofs, their cross terms contribute to A[i, i]
+    run("bilinear form on a vector-valued element, components sharing dofs, full", "full", rt=True)
+    run("bilinear form on a vector-valued element, components sharing dofs, diagonal", "diagonal", rt=True)
     # consumer side (modified_arguments built from argkeys in order): GEN-INTEGRAL-DRIVER interprets compute_integral_ir as a whole
 
 
